@@ -162,7 +162,7 @@ type HTTPPlan struct {
 // DNSPlan scripts the resolver for one address.
 type DNSPlan struct {
 	Addr   string   `json:"addr"`
-	Script []string `json:"script"` // per call, in order (last repeats): names:<n>|empty|error|slow:<us>:<n>|stall
+	Script []string `json:"script"` // per call, in order (last repeats): names:<n>|empty|error[:notfound|:timeout|:temporary]|slow:<us>:<n>|stall
 }
 
 // Knobs are per-run configuration choices of the simulated environment.
